@@ -187,6 +187,25 @@ class Report:
                 self.ob("R-control", "%s::%s/inherent-shadows-trait-method" % (owner, name), False,
                         "%s has an inherent method `%s` with the name of a method of a trait it implements: method-call syntax resolves to the inherent one, the rules read the trait implementation"
                         % (owner, name), path.split("/repo/")[-1])
+        # macros the rules interpret by name: `t!(e)` is read as T::coerce(e), the logging wrappers as nothing (log feature off), and
+        # vec!/assert!/matches!/.. as the standard ones.  Their crate-level definitions must say exactly that, and no crate macro may take a std name.
+        want = {"t": r"^\(\$(\w+):expr\)=>\{T::coerce\(\$\1\);?\};?$"}
+        for nm_ in ("trace", "debug", "info", "warn", "error"):
+            want[nm_] = r"^\(\$\(\$(\w+):tt\)\*\)=>\(#\[cfg\(feature=\"log\"\)\]\{log::%s!\(\$\(\$\1\)\*\)\}\);?$" % nm_
+        std_names = {"vec", "matches", "format", "write", "writeln", "panic", "unreachable", "assert", "assert_eq", "assert_ne", "debug_assert", "debug_assert_eq",
+                     "debug_assert_ne", "todo", "unimplemented", "cfg", "println", "eprintln", "format_args", "is_x86_feature_detected", "concat", "stringify"}
+        seen_macros = {}
+        for rel_, it_ in getattr(facts_, "macro_defs", []):
+            seen_macros.setdefault(it_.get("ident"), []).append((rel_, it_))
+        for ident_, defs_ in sorted(seen_macros.items(), key=lambda kv: str(kv[0])):
+            if ident_ in want:
+                ok_ = len(defs_) == 1 and _re.match(want[ident_], (defs_[0][1].get("tokens") or "").replace(" ", "")) is not None
+                self.ob("R-control", "macro/%s" % ident_, ok_,
+                        "macro `%s!` is read by the rules as %s; its definition must say exactly that (found %d definition(s): %s)"
+                        % (ident_, "T::coerce(argument)" if ident_ == "t" else "a no-op unless the `log` feature is on (arguments not evaluated)", len(defs_),
+                           [(d[1].get("tokens") or "")[:120] for d in defs_]), "src/%s" % defs_[0][0])
+            if ident_ in std_names:
+                self.ob("R-control", "macro/%s/shadows-std" % ident_, False, "the crate defines its own `%s!`: the rules read `%s!(..)` as the standard macro" % (ident_, ident_), "src/%s" % defs_[0][0])
         if ncfg:
             self.ob("R-control", "build-mode-cfg/scan", True, "%d function bodies scanned for test-/debug-only conditional compilation" % ncfg, "src/")
         if n:
